@@ -29,10 +29,14 @@ def load_known(prop):
                 w = e.get("witness_file")
                 e["_witnesses"] = set()
                 if w:
-                    p = os.path.join(VERIF, w)
-                    if os.path.exists(p):
-                        with open(p) as wf:
-                            e["_witnesses"] = {x.rstrip("\n") for x in wf if x.strip()}
+                    # known/<name>.txt plus per-tier lists known/<name>-<tier>.txt
+                    import glob
+
+                    base = os.path.join(VERIF, w)
+                    for p in [base] + glob.glob(base[:-4] + "-*.txt"):
+                        if os.path.exists(p):
+                            with open(p) as wf:
+                                e["_witnesses"] |= {x.rstrip("\n") for x in wf if x.strip()}
                 out.append(e)
     return out
 
